@@ -52,7 +52,7 @@ def schedstream(profile, nq, nt, modes, length=120):
             "args": {"quick": ["-n", str(nq), "-profile", profile, "-len", str(length)],
                      "thorough": ["-n", str(nt), "-profile", profile, "-len", str(length * 2)]}}
 
-RULE_SCHED = "real scheduler (launch() / Drummer.maintainShards() through the verif hook, scripted random source, Go map orders read back and handed to the model) on contexts answered by the real DB; profiles: launch = definitions of 1..6 shards x 1..5 members, the full matrix of region specifications (absent, shorter, longer, over/under-subscribed, duplicate, unknown, count 2^63), fleets of 0..8 hosts with regions and liveness; repair = views built member by member (healthy / failed after silence / failed never seen / waiting; host live or not; log record or not; surplus or missing members), 1..4 shards of <=5 members on 4..7 hosts; general = random command sequences; evaluations = scheduling calls, non-trivial = calls that produced requests"
+RULE_SCHED = "real scheduler (launch() / Drummer.maintainShards() through the verif hook, scripted random source, Go map orders read back and handed to the model) on contexts answered by the real DB; profiles: launch = definitions of 1..6 shards x 1..5 members, the full matrix of region specifications (absent, shorter, longer, over/under-subscribed, duplicate, unknown, count 2^63), fleets of 0..8 hosts with regions and liveness; repair = views built member by member (healthy / failed after silence / failed never seen / waiting; host live or not; log record or not; surplus or missing members; stray replicas with an older membership on hosts that run no member of the shard), 1..4 shards of <=5 members on 4..7 hosts; general = random command sequences; evaluations = scheduling calls, non-trivial = calls that produced requests"
 
 def loopstream(nq, nt, faults=60):
     return {"cmd": "loopsim", "driver": "LoopDriver", "sections": None, "eval_re": r"^case:", "timeout": 3000,
@@ -192,7 +192,7 @@ CHECKS = {
     "C11": {
         "lean": ["DrummerVerif.Props.C11", "DrummerVerif.Props.Witness", "DrummerVerif.Props.WitnessDb"],
         "streams": [dbstream("c11", 250, 4000, ["res", "img", "kill"]), dbstream("general", 150, 2000, ["res", "img", "kill"]),
-                    schedstream("general", 150, 2000, ["maintain"]), loopstream(12, 300), AGENT_SCENARIO],
+                    schedstream("general", 150, 2000, ["maintain"]), schedstream("repair", 200, 3000, ["maintain"]), loopstream(12, 300), AGENT_SCENARIO],
         "rule": RULE_DB % "c11 (every second report of a non-member host carries a stray replica) and general",
         "assumptions": DB_ASSUME,
     },
